@@ -375,3 +375,126 @@ def coq_writes(ws, ids) -> str:
 
 def coq_switches(rec, ids) -> str:
     return "[" + "; ".join(f"({ids[f]}%N, {coq_bool(rec[f])})" for f in sorted(ids, key=ids.get)) + "]"
+
+
+# ---------------------------------------------------------------------------------------------
+# translator: the file-writing step of the generator  (AST of symplyphysics/docs/build.py, docs/build.py)
+# ---------------------------------------------------------------------------------------------
+
+OPEN_MODES = {"w": "FOpenW", "w+": "FOpenW", "r+": "FOpenRPlus", "a": "FOpenA", "a+": "FOpenA"}
+
+
+def _mentions(node, name: str) -> bool:
+    return any(isinstance(n, ast.Name) and n.id == name for n in ast.walk(node))
+
+
+def _is_call(node, obj: str, meth: str):
+    return (isinstance(node, ast.Call) and isinstance(node.func, ast.Attribute) and node.func.attr == meth
+        and isinstance(node.func.value, ast.Name) and node.func.value.id == obj)
+
+
+def _open_of(w: ast.With):
+    if len(w.items) != 1:
+        return None
+    c = w.items[0].context_expr
+    if isinstance(c, ast.Call) and isinstance(c.func, ast.Name) and c.func.id == "open" and isinstance(w.items[0].optional_vars, ast.Name):
+        return c, w.items[0].optional_vars.id
+    return None
+
+
+def translate_with(w: ast.With, where: str):
+    """`with open(path, mode) as f: ...` -> list of fop constructor names"""
+    call, f = _open_of(w)
+    mode = call.args[1] if len(call.args) > 1 else next((k.value for k in call.keywords if k.arg == "mode"), None)
+    mode = "r" if mode is None else (mode.value if isinstance(mode, ast.Constant) else None)
+    if mode not in OPEN_MODES:
+        raise Unmodelled(f"{where}: open mode {mode!r}")
+    ops = [OPEN_MODES[mode]]
+    for s in w.body:
+        if not _mentions(s, f):
+            continue                                       # does not touch the file
+        v = s.value if isinstance(s, (ast.Expr, ast.Assign)) else None
+        if v is not None and _is_call(v, f, "write") and len(v.args) == 1 and isinstance(v.args[0], ast.Name):
+            ops.append("FWrite")
+        elif v is not None and _is_call(v, f, "read") and not v.args:
+            ops.append("FRead")
+        elif v is not None and _is_call(v, f, "seek") and len(v.args) == 1 and isinstance(v.args[0], ast.Constant) and v.args[0].value == 0:
+            ops.append("FSeek0")
+        elif v is not None and _is_call(v, f, "truncate") and not v.args:
+            ops.append("FTruncate")
+        elif v is not None and _is_call(v, f, "truncate") and len(v.args) == 1 and isinstance(v.args[0], ast.Constant) and v.args[0].value == 0:
+            ops.append("FTruncate0")
+        elif (isinstance(s, ast.If) and isinstance(s.test, ast.Compare) and len(s.test.ops) == 1 and isinstance(s.test.ops[0], ast.Eq)
+                and _is_call(s.test.left, f, "read") and isinstance(s.test.comparators[0], ast.Name)
+                and len(s.body) == 1 and isinstance(s.body[0], ast.Return) and not s.orelse):
+            ops.append("FStopIfEqual")
+        else:
+            raise Unmodelled(f"{where}: file operation {ast.unparse(s)[:80]!r}")
+    return ops
+
+
+def _translate_writer_body(body, where: str):
+    """statements of a function -> (if_missing ops, if_exists ops) or None when it does not write a file"""
+    missing = exists = None
+    for s in body:
+        if isinstance(s, ast.With) and _open_of(s):
+            exists = translate_with(s, where)
+        elif (isinstance(s, ast.If) and isinstance(s.test, ast.UnaryOp) and isinstance(s.test.op, ast.Not)
+                and isinstance(s.test.operand, ast.Call) and isinstance(s.test.operand.func, ast.Attribute)
+                and s.test.operand.func.attr == "exists" and not s.orelse
+                and len(s.body) == 2 and isinstance(s.body[0], ast.With) and _open_of(s.body[0]) and isinstance(s.body[1], ast.Return)):
+            missing = translate_with(s.body[0], where)
+        elif any(isinstance(n, ast.Call) and isinstance(n.func, ast.Name) and n.func.id == "open" for n in ast.walk(s)):
+            raise Unmodelled(f"{where}: open() inside {ast.unparse(s)[:60]!r}")
+    if exists is None:
+        return None
+    return (missing if missing is not None else exists), exists
+
+
+def read_page_writer(build_py: Path):
+    """the write step of _process_law and _process_law_package (directly, or through one module-level helper)"""
+    tree = ast.parse(build_py.read_text(encoding="utf-8"))
+    funcs = {s.name: s for s in tree.body if isinstance(s, ast.FunctionDef)}
+    found = {}
+    for name in ("_process_law", "_process_law_package"):
+        if name not in funcs:
+            raise Unmodelled(f"{name} not found")
+        body = funcs[name].body
+        # the source file is opened for reading first: only writing opens matter
+        w = _translate_writer_body([s for s in body if not (isinstance(s, ast.With) and _open_of(s)
+            and translate_mode(s) == "r")], name)
+        if w is None:
+            helpers = [n.func.id for s in body for n in ast.walk(s) if isinstance(n, ast.Call) and isinstance(n.func, ast.Name)
+                and n.func.id in funcs and any(isinstance(m, ast.Call) and isinstance(m.func, ast.Name) and m.func.id == "open"
+                    for m in ast.walk(funcs[n.func.id]))]
+            if len(set(helpers)) != 1:
+                raise Unmodelled(f"{name}: cannot find the page-writing step")
+            w = _translate_writer_body(funcs[helpers[0]].body, helpers[0])
+            if w is None:
+                raise Unmodelled(f"{helpers[0]}: no writing open()")
+        found[name] = w
+    if found["_process_law"] != found["_process_law_package"]:
+        raise Unmodelled(f"laws and packages are written differently: {found}")
+    return found["_process_law"]
+
+
+def translate_mode(w: ast.With) -> str:
+    call, _ = _open_of(w)
+    mode = call.args[1] if len(call.args) > 1 else next((k.value for k in call.keywords if k.arg == "mode"), None)
+    return "r" if mode is None else (mode.value if isinstance(mode, ast.Constant) else "?")
+
+
+def read_role_writer(script_py: Path):
+    """process_generated_files of docs/build.py: rewrites every generated page in place"""
+    tree = ast.parse(script_py.read_text(encoding="utf-8"))
+    fn = next((s for s in tree.body if isinstance(s, ast.FunctionDef) and s.name == "process_generated_files"), None)
+    if fn is None:
+        raise Unmodelled("process_generated_files not found")
+    withs = [n for n in ast.walk(fn) if isinstance(n, ast.With) and _open_of(n)]
+    if len(withs) != 1:
+        raise Unmodelled("process_generated_files: expected exactly one open()")
+    return translate_with(withs[0], "process_generated_files")
+
+
+def coq_fops(ops) -> str:
+    return "[" + "; ".join(ops) + "]"
